@@ -215,7 +215,18 @@ FORMULAS = [
     F("strand_table_proportions", "C03", "stripe/measure.py", "_TableProportions", "base_values", "(cnt base : Val)",
       {"self._measures.weighted_counts.base_values": "cnt", "self._weighted_cube_counts.bases": "base"}, "cnt / base", result="Val",
       what="weighted counts / weighted bases (`StrandCell.proportion` default)"),
+    F("strand_table_percentages", "C03", "cubepart.py", "_Strand", "table_percentages", "(p : Val)",
+      {"self.table_proportions": "p"}, "p * Val.fin 100", result="Val", what="strand table proportions * 100 (the cell function of `MatCounts.pct`)"),
+    F("column_proportions_intersections", "C03", "matrix/measure.py", "_ColumnProportions", "_intersections", "(cnt base : Val)",
+      {"self._count_blocks[1][1]": "cnt", "self._weighted_base_blocks[1][1]": "base"}, "cnt / base", result="Val",
+      what="intersection counts / intersection column bases (`VarCell.proportion` default for the column direction)"),
+    F("margin_table_proportion", "C03", "matrix/measure.py", "_MarginTableProportion", "blocks", "(num den : Val)",
+      {"self._proportion_numerators[@]": "num", "self._proportion_denominators[@]": "den"}, "num / den", result="Val", blocks=(2,),
+      what="margin numerators / table-base denominators, base values and subtotals (`MatCounts.rows/columnsMarginProportion` quotient)"),
     # ---- C14 ------------------------------------------------------------------------------------------------
+    F("strand_scale_mean", "C14", "stripe/measure.py", "_ScaledCounts", "scale_mean", "(scaled total : Val)",
+      {"self._total_scaled_count": "scaled", "self._total_weighted_count": "total"}, "scaled / total", result="Val",
+      what="total scaled count / total weighted count (the quotient of `Scale.strandMean`; its two None guards stay with the behavioural tie)"),
     F("strand_scale_stddev", "C14", "stripe/measure.py", "_ScaledCounts", "scale_stddev", "(var : Val)",
       {"self._scale_variance": "var"}, "CrCube.Scale.SOut.sqrt var", sqrt="CrCube.Scale.SOut.sqrt", result="SOut",
       what="sqrt(scale variance): the `some var` arm of `strandStats.stddev`"),
@@ -669,6 +680,12 @@ TACTIC = """  first
     | (simp only [{defs}, CrCube.Src.ofNat_eq_fin, Nat.cast_ofNat, Nat.cast_one, Nat.cast_zero, CrCube.Val.mul_comm', CrCube.Val.add_comm']; done)
     | (simp only [{defs}, CrCube.Src.ofNat_eq_fin, Nat.cast_ofNat, Nat.cast_one, Nat.cast_zero, CrCube.Val.sub_def, CrCube.Val.neg_add',
          CrCube.Val.neg_neg', CrCube.Val.add_assoc', CrCube.Val.add_comm', CrCube.Val.add_left_comm', CrCube.Val.mul_comm']; done)
+    | (simp only [{defs}, CrCube.Src.ofNat_eq_fin, Nat.cast_ofNat, Nat.cast_one, Nat.cast_zero, CrCube.Val.sub_def, CrCube.Val.neg_add',
+         CrCube.Val.neg_neg', CrCube.Val.add_assoc', CrCube.Val.add_comm', CrCube.Val.add_left_comm',
+         CrCube.Val.mul_assoc', CrCube.Val.mul_comm', CrCube.Val.mul_left_comm']; done)
+    | (simp only [{defs}, CrCube.Src.ofNat_eq_fin, Nat.cast_ofNat, Nat.cast_one, Nat.cast_zero, CrCube.Val.sub_def, CrCube.Val.neg_add',
+         CrCube.Val.neg_neg', CrCube.Val.div_eq_mul_inv', CrCube.Val.add_assoc', CrCube.Val.add_comm', CrCube.Val.add_left_comm',
+         CrCube.Val.mul_assoc', CrCube.Val.mul_comm', CrCube.Val.mul_left_comm']; done)
     | (simp only [{defs}]
        try simp only [CrCube.Src.ofNat_eq_fin, Nat.cast_ofNat, Nat.cast_one, Nat.cast_zero, CrCube.Val.mul_comm', CrCube.Val.add_comm']
        fail "srcformulas: the arithmetic of {where} is not the model's {rhs}")
